@@ -579,11 +579,26 @@ class WireView(object):
                             int(f[0]))
                     del f[:4 + n]
 
-    def transcript_upto(self, pred):
+    def transcript_upto(self, pred, alg=None):
         """concatenation of handshake messages up to and including the first
-        message satisfying pred(sender, type)"""
+        message satisfying pred(sender, type).  With alg given, a
+        HelloRetryRequest exchange is folded as RFC 8446 4.4.1 says:
+        ClientHello1 is replaced by message_hash || 00 00 Hash.length ||
+        Hash(ClientHello1) and the HelloRetryRequest is not the ServerHello
+        the predicate looks for."""
+        msgs = list(self.msgs)
+        self.hrr = False
+        if alg is not None and len(msgs) >= 2 and \
+                msgs[1][1] == HandshakeType.server_hello and \
+                [int(x) if isinstance(x, int) else None
+                 for x in msgs[1][2][6:38]] == list(TLS_1_3_HRR):
+            self.hrr = True
+            h = list(hash_bytes(alg, msgs[0][2]))
+            synth = [HandshakeType.message_hash, 0, 0, len(h)] + h
+            msgs = [("c", HandshakeType.message_hash, synth),
+                    ("s", -1, msgs[1][2])] + msgs[2:]
         out = []
-        for who, t, b in self.msgs:
+        for who, t, b in msgs:
             out += b
             if pred(who, t):
                 return out
@@ -623,18 +638,18 @@ class Schedule13(object):
         d = derive_secret(alg, self.early, b"derived", [])
         self.hs = list(hmac_bytes(alg, d, shared))
         t_sh = view.transcript_upto(
-            lambda w, t: w == "s" and t == HandshakeType.server_hello)
+            lambda w, t: w == "s" and t == HandshakeType.server_hello, alg)
         self.c_hs = derive_secret(alg, self.hs, b"c hs traffic", t_sh)
         self.s_hs = derive_secret(alg, self.hs, b"s hs traffic", t_sh)
         d = derive_secret(alg, self.hs, b"derived", [])
         self.master = list(hmac_bytes(alg, d, z))
         t_sf = view.transcript_upto(
-            lambda w, t: w == "s" and t == HandshakeType.finished)
+            lambda w, t: w == "s" and t == HandshakeType.finished, alg)
         self.c_ap = derive_secret(alg, self.master, b"c ap traffic", t_sf)
         self.s_ap = derive_secret(alg, self.master, b"s ap traffic", t_sf)
         self.exp = derive_secret(alg, self.master, b"exp master", t_sf)
         t_cf = view.transcript_upto(
-            lambda w, t: w == "c" and t == HandshakeType.finished)
+            lambda w, t: w == "c" and t == HandshakeType.finished, alg)
         self.res = derive_secret(alg, self.master, b"res master", t_cf) \
             if t_cf is not None else None
 
